@@ -46,7 +46,7 @@ def spec():
         Row('Pt', 'E0', 'Out'),
         Row('Pt', 'E7', ('direct', 'Sub', ['A1', 'B1', 'C1'])),
         Row(('exit', 'Pt', 'X'), 'E6', 'Done', guard=2, actions=['left']),
-        Row(('exit', 'Pt', 'Y'), 'E8', 'Out', guard=7, actions=['lefty']),
+        Row(('exit', 'Pt', 'Y'), 'E8', 'Out', actions=['lefty']),       # guard-less row leaving an exit point
         Row('Done', 'E0', 'Out'),
         Row('Done', 'E6', None, actions=['d6']),
         Row('Out', 'E6', None, guard=3, actions=['o6']),
